@@ -362,7 +362,26 @@ fn gen_case(g: &mut Gen, shape: &[(&'static str, usize)], exhaustive: bool) {
     let src = src_spec(g, &names, false);
     g.op(format!("first src={}", src));
     g.count_n("first", 3);
+    {
+        // TensorAccess::first directly (not through a TensorView)
+        let mut order: Vec<&str> = names.clone();
+        g.rng.shuffle(&mut order);
+        g.op(format!("first src=a:{} via=access", show_names(&order)));
+        g.count("first.tensor_access");
+    }
+    // ---- taking the source back out of a view; squareness
+    for via in ["source", "source_ref"] {
+        let src = src_spec(g, &names, false);
+        g.op(format!("source src={} via={}", src, via));
+        g.count(&format!("source.{}", &src[..1]));
+    }
+    g.op("is_square".to_string());
+    g.count("is_square");
     if d == 0 {
+        for src in ["t", "v", "a:-", "x:-", "r:-"] {
+            g.op(format!("scalar src={} form=into", src));
+            g.count("scalar.into_scalar");
+        }
         g.op("scalar src=t".to_string());
         g.op("scalar src=v".to_string());
         g.op("scalar src=a:-".to_string());
@@ -571,10 +590,28 @@ fn show_dump<S: TensorRef<u64, D>, const D: usize>(s: &S) -> String {
 /// A lazy view: its shape, its elements by the library's iterator — which must agree with the
 /// elements read one by one through `get_reference`.
 fn show_lazy<S: TensorRef<u64, D>, const D: usize>(v: &TensorView<u64, S, D>) -> String {
+    use easy_ml::tensors::indexing::WithIndex;
     let by_iter: Vec<u64> = v.iter().collect();
     let by_ref_iter: Vec<u64> = v.iter_reference().copied().collect();
+    // the `From<iterator> for WithIndex<iterator>` conversions: indexes and elements in step
+    let lens: Vec<usize> = v.shape().iter().map(|d| d.1).collect();
+    let own = all_indexes(&lens);
+    let wi_ref: Vec<([usize; D], u64)> = WithIndex::from(v.iter_reference()).map(|(i, x)| (i, *x)).collect();
+    let wi_val: Vec<([usize; D], u64)> = WithIndex::from(v.iter()).collect();
+    let wi_ok = wi_ref == wi_val
+        && wi_ref.len() == own.len()
+        && wi_ref.iter().zip(own.iter()).all(|((i, _), o)| i[..] == o[..])
+        && wi_ref.iter().map(|p| p.1).collect::<Vec<u64>>() == by_iter;
+    if !wi_ok {
+        return "with-index-from-mismatch".into();
+    }
     match dump(v.source_ref()) {
         Ok((shape, data)) => {
+            // a lazy view prints as the tensor holding its value (Display depends on the value only)
+            let materialised: Tensor<u64, D> = Tensor::from(v.shape(), data.clone());
+            if format!("{}", v) != format!("{}", materialised) {
+                return "display-mismatch".into();
+            }
             if data != by_iter || data != by_ref_iter || shape[..] != v.shape()[..] {
                 format!("iter-vs-get-mismatch iter={} get={}", show_data(&by_iter), show_data(&data))
             } else {
@@ -671,9 +708,19 @@ fn reorder_like<const D: usize>(t: &Tensor<u64, D>, transpose: bool, names: &[&'
         }
         "lazy" => with_view!(t, src, D, v => {
             if transpose {
-                show_lazy(&v.transpose_view(names))
+                // Display of a TensorTranspose = Display of its value + its data layout
+                let tt = TensorTranspose::from(v.source_ref(), names);
+                let shown = format!("{}", tt);
+                let layout = format!("\nData Layout = {:?}", tt.data_layout());
+                let lazy = v.transpose_view(names);
+                if shown != format!("{}{}", lazy, layout) { "display-mismatch".to_string() } else { show_lazy(&lazy) }
             } else {
-                show_lazy(&TensorView::from(TensorAccess::from(v.source_ref(), names)))
+                // Display of a TensorAccess = Display of its value + its data layout
+                let ta = TensorAccess::from(v.source_ref(), names);
+                let shown = format!("{}", ta);
+                let layout = format!("\nData Layout = {:?}", ta.data_layout());
+                let lazy = TensorView::from(ta);
+                if shown != format!("{}{}", lazy, layout) { "display-mismatch".to_string() } else { show_lazy(&lazy) }
             }
         }),
         _ => {
@@ -828,9 +875,14 @@ fn zip<const D: usize>(t: &Tensor<u64, D>, t2: &Tensor<u64, D>, src: &Src, rsrc:
     }))
 }
 
-fn first<const D: usize>(t: &Tensor<u64, D>, src: &Src) -> String {
+fn first<const D: usize>(t: &Tensor<u64, D>, src: &Src, via: &str) -> String {
     outcome(catch(|| {
-        if is_tensor(src) {
+        if via == "access" {
+            match src {
+                Src::Access(n) => TensorAccess::from(t, names_array::<D>(n)).first().to_string(),
+                _ => "bad-op".to_string(),
+            }
+        } else if is_tensor(src) {
             t.first().to_string()
         } else {
             with_view!(t, src, D, v => v.first().to_string())
@@ -838,10 +890,44 @@ fn first<const D: usize>(t: &Tensor<u64, D>, src: &Src) -> String {
     }))
 }
 
-fn scalar(t: &Tensor<u64, 0>, src: &Src) -> String {
+/// Builds the view over an owned copy and takes the source back out (`source` consumes,
+/// `source_ref` borrows) at every layer; the tensor that comes out must be the one put in.
+fn source<const D: usize>(t: &Tensor<u64, D>, src: &Src, via: &str) -> String {
+    outcome(catch(|| {
+        let by_ref = via == "source_ref";
+        match src {
+            Src::Tensor | Src::View => {
+                let v = t.clone().view_owned();
+                if by_ref { show_dump(v.source_ref()) } else { show_dump(&v.source()) }
+            }
+            Src::Access(n) => {
+                let v = TensorView::from(TensorAccess::from(t.clone(), names_array::<D>(n)));
+                if by_ref { show_dump(v.source_ref().source_ref()) } else { show_dump(&v.source().source()) }
+            }
+            Src::Transpose(n) => {
+                let v = TensorView::from(TensorTranspose::from(t.clone(), names_array::<D>(n)));
+                if by_ref { show_dump(v.source_ref().source_ref()) } else { show_dump(&v.source().source()) }
+            }
+            Src::Rename(n) => {
+                let v = TensorView::from(TensorRename::from(t.clone(), names_array::<D>(n)));
+                if by_ref { show_dump(v.source_ref().source_ref()) } else { show_dump(&v.source().source()) }
+            }
+        }
+    }))
+}
+
+fn scalar(t: &Tensor<u64, 0>, src: &Src, form: &str) -> String {
     const Z: usize = 0;
     outcome(catch(|| {
-        if is_tensor(src) {
+        if form == "into" && !is_tensor(src) {
+            // TensorView::into_scalar needs an owned (TensorMut) source
+            match src {
+                Src::Tensor | Src::View => t.clone().view_owned().into_scalar().to_string(),
+                Src::Access(n) => TensorView::from(TensorAccess::from(t.clone(), names_array::<Z>(n))).into_scalar().to_string(),
+                Src::Transpose(n) => TensorView::from(TensorTranspose::from(t.clone(), names_array::<Z>(n))).into_scalar().to_string(),
+                Src::Rename(n) => TensorView::from(TensorRename::from(t.clone(), names_array::<Z>(n))).into_scalar().to_string(),
+            }
+        } else if is_tensor(src) {
             let a = t.scalar();
             let b = t.clone().into_scalar();
             if a == b { a.to_string() } else { format!("scalar-vs-into_scalar {} {}", a, b) }
@@ -955,7 +1041,9 @@ fn step_d<const D: usize>(t: &Tensor<u64, D>, toks: &[&str]) -> String {
             let t2: Tensor<u64, D> = Tensor::from(shape_array(&shape2), parse_data(data_s));
             zip(t, &t2, &src_arg("src", rest), &src_arg("rsrc", rest), opt_arg("idx", rest) == Some("1"), opt_arg("via", rest).unwrap_or("val"))
         }
-        ["first", rest @ ..] => first(t, &src_arg("src", rest)),
+        ["first", rest @ ..] => first(t, &src_arg("src", rest), opt_arg("via", rest).unwrap_or("")),
+        ["source", rest @ ..] => source(t, &src_arg("src", rest), opt_arg("via", rest).unwrap_or("source")),
+        ["is_square", ..] => easy_ml::tensors::dimensions::is_square(&t.shape()).to_string(),
         [op @ ("eq" | "similar"), shape_s, data_s, rest @ ..] => {
             let shape2 = parse_shape(shape_s);
             if shape2.len() != D {
@@ -1007,7 +1095,7 @@ impl Runner {
                 _ => "bad-op".into(),
             },
             ["scalar", rest @ ..] => match &self.t {
-                AnyT::D0(t) => scalar(t, &src_arg("src", rest)),
+                AnyT::D0(t) => scalar(t, &src_arg("src", rest), opt_arg("form", rest).unwrap_or("")),
                 AnyT::None => "no-tensor".into(),
                 _ => "bad-op".into(),
             },
